@@ -514,11 +514,14 @@ def slice_dim(f, slicedef, fuzzydim=True):
         if dimkey not in var.dimensions:
             p2p.addVariable(inf, outf, varkey)
         else:
-            axis = list(var.dimensions).index(dimkey)
-            vout = var[...].swapaxes(
-                0, axis)[dmin:dmax:dstride].swapaxes(0, axis)
+            # every axis that has the dimension (COV(x, x)) is sliced
+            vout = var[...]
+            for axis, dk in enumerate(var.dimensions):
+                if dk == dimkey:
+                    vout = vout.swapaxes(
+                        0, axis)[dmin:dmax:dstride].swapaxes(0, axis)
 
-            newlen = vout.shape[axis]
+            newlen = vout.shape[list(var.dimensions).index(dimkey)]
             newdim = outf.createDimension(dimkey, newlen)
             newdim.setunlimited(unlimited)
             outf.variables[varkey] = vout
